@@ -198,7 +198,7 @@ def implicit_vs_explicit(ctx, g, dims, tset):
         ctx.eq('%s/%s' % (tag, '_'.join(map(str, cc))), al * (x[r] - y._value[cc]) / dt, -scen.matvec_row(rowsA, r, dvec, ctx), pre=hyp)
 
 
-def closure(ctx, g, dims, tset, periodic=False):
+def closure(ctx, g, dims, tset, periodic=False, history=None):
     """implicit and explicit steps see ONE boundary closure: the field solvePDE leaves behind (interior from the solver, ghost layer
     re-imposed by apply_BCs - the closure solveExplicitPDE and the gradient/divergence chain use) satisfies the boundary rows of the
     very system the transient step assembled.  Without this the two steps differ at O(1), not O(dt^2).  Periodic axes: equal end
@@ -214,12 +214,23 @@ def closure(ctx, g, dims, tset, periodic=False):
     D = scen.facevar(ctx, m, 'D'); u = scen.facevar(ctx, m, 'u')
     beta = scen.cellvar(ctx, m, 'be'); gam = scen.cellvar(ctx, m, 'ga')
     dt = ctx.real('dt', 'pos'); al = ctx.real('al', 'pos')
+    if history == 'explicit_implicit_edit':
+        # multi-step sequence: explicit start-up step, a first implicit step, THEN the boundary data change (time-dependent
+        # boundary values), then the implicit step under test - which must use the CURRENT boundary conditions
+        n_ = int(np.prod(scen.full_shape(dims)))
+        phi = pf.solveExplicitPDE(phi, ctx.real('dt0', 'pos'), ctx.arr('R0', (n_,)))
+        s0 = scen.Solver(ctx, 'w')
+        pf.solvePDE(phi, [pf.transientTerm(phi, dt, al)] + _spatial(ctx, m, SETS[tset], D, u, beta, gam), externalsolver=s0)
+        for ax in range(nd):
+            if ax != per_ax:
+                scen.set_robin(ctx, phi.BCs, scen.SIDES[2 * ax], prefix='e' + scen.SIDES[2 * ax])
+                scen.set_robin(ctx, phi.BCs, scen.SIDES[2 * ax + 1], prefix='e' + scen.SIDES[2 * ax + 1])
     sol = scen.Solver(ctx)
     pf.solvePDE(phi, [pf.transientTerm(phi, dt, al)] + _spatial(ctx, m, SETS[tset], D, u, beta, gam), externalsolver=sol)
     rows = scen.mat_rows(sol.M)
     fl = scen.flat(phi._value)
     G = scen.cell_index(dims)
-    tag = 'C12/%s/%s/closure/%s%s' % (g, 'x'.join(map(str, dims)), tset, '/periodic' if periodic else '')
+    tag = 'C12/%s/%s/closure/%s%s%s' % (g, 'x'.join(map(str, dims)), tset, '/periodic' if periodic else '', ('/' + history) if history else '')
     for cc in scen.all_cells(dims):
         if scen.n_out(cc, dims) != 1:
             continue
@@ -267,6 +278,10 @@ def scenarios(tier):
                 for ts in (('all',) if tier == 'quick' else ('all', 'diff')):
                     T.append({'name': 'closure/%s/%s/%s%s' % (g, ds, ts, '/periodic' if per else ''), 'fn': 'pv.props.c12:closure',
                               'params': {'g': g, 'dims': dims, 'tset': ts, 'periodic': per}, 'timeout': 30, 'validate': 1})
+                if tier == 'thorough' or dims == D[nd][0]:
+                    T.append({'name': 'closure/%s/%s/diff%s/explicit_implicit_edit' % (g, ds, '/periodic' if per else ''), 'fn': 'pv.props.c12:closure',
+                              'params': {'g': g, 'dims': dims, 'tset': 'diff', 'periodic': per, 'history': 'explicit_implicit_edit'},
+                              'timeout': 30, 'validate': 1})
                 T.append({'name': 'explicit/%s/%s%s' % (g, ds, '/periodic' if per else ''), 'fn': 'pv.props.c12:explicit_step',
                           'params': {'g': g, 'dims': dims, 'periodic': per}, 'timeout': 30, 'validate': 1})
     T.sort(key=lambda t: -int(np.prod(t['params']['dims'])) - (100 if 'Spherical' in t['name'] else 0))
